@@ -191,6 +191,46 @@ def judge_special(ctx, case):
         ctx.fail("resolution", case, f"{formula!r} ({kind}: {case}): the call received {got[0]} instead of {want[0]}", kind)
 
 
+def judge_dotted_first_match(ctx, case):
+    """`zeta.fn(x)`: the first scope that defines `zeta` wins also when its object has no `fn`; a later scope whose `zeta`
+    does have one must not be used instead (attribute access happens on the first match)."""
+    from formulae import design_matrices
+    from formulae import transforms
+
+    first, later = case["first"], case["later"]
+    ctx.count(core.canon(case), True, ["special:dotted_first_match"], stratum="special")
+    data = pd.DataFrame({"y": np.arange(N, dtype=float), "x": np.arange(N, dtype=float) + 1})
+    without = types.SimpleNamespace(other=lambda a: np.asarray(a, dtype=float) * 2)
+    with_fn = types.SimpleNamespace(fn=lambda a: np.asarray(a, dtype=float) * 5)
+    g = {"design_matrices": design_matrices, "np": np}
+    extra = {}
+    local_line, localval = "pass", None
+    added = False
+    try:
+        for scope, obj in ((first, without), (later, with_fn)):
+            if scope == "builtin":
+                transforms.TRANSFORMS["zeta"] = obj
+                added = True
+            elif scope == "locals":
+                local_line, localval = "zeta = localval", obj
+            elif scope == "globals":
+                g["zeta"] = obj
+            else:
+                extra["zeta"] = obj
+        exec(f"def caller(formula, data, extra, localval):\n    {local_line}\n    return design_matrices(formula, data, extra_namespace=extra)\n", g)  # pylint: disable=exec-used
+        try:
+            with core.Guard():
+                dm = g["caller"]("y ~ 0 + zeta.fn(x)", data, extra, localval)
+        except Exception:  # pylint: disable=broad-except
+            return
+        got = np.asarray(dm.common.design_matrix, dtype=float).reshape(N, -1)[:, 0]
+        ctx.fail("resolution", case, f"'y ~ 0 + zeta.fn(x)': zeta of {first} (the first match) has no attribute fn, but the call was evaluated "
+                 f"(column starts with {got[0]}: the zeta of {later} was used)", "dotted_first_match")
+    finally:
+        if added:
+            transforms.TRANSFORMS.pop("zeta", None)
+
+
 def judge_closure(ctx, case):
     """The frame selected by env is a nested function (inner def or lambda, with or without a captured variable): the
     locals of the functions around it are not its locals.  A name that is only a local of an enclosing (or calling)
@@ -299,6 +339,9 @@ def judge(ctx, case):
     if case.get("kind") == "closure":
         judge_closure(ctx, case)
         return
+    if case.get("kind") == "dotted_first_match":
+        judge_dotted_first_match(ctx, case)
+        return
     items = [(r, n, tuple(s)) for r, n, s in case["items"]]
     env = case["env"]
     nt = any(len(s) >= 2 for _, _, s in items)
@@ -382,6 +425,10 @@ def enum_cases():
         for subset in _subsets(["locals", "globals", "extra"]):
             if subset:
                 yield {"kind": "shadow", "name": name, "subset": list(subset)}
+    order = ["builtin", "locals", "globals", "extra"]
+    for i, first in enumerate(order):
+        for later in order[i + 1:]:
+            yield {"kind": "dotted_first_match", "first": first, "later": later}
     for role in ("arg", "callee"):
         for where in (None, "globals", "extra"):
             for shape in ("def", "lambda"):
